@@ -1591,11 +1591,26 @@ func (fr *oFrame) call(call *ast.CallExpr) []oval {
 					}
 					sub := &oFrame{it: fr.it, info: finfo, env: &oEnv{vars: map[types.Object]*oval{}, parent: fn.env}, depth: fr.depth + 1}
 					ps := paramVars(finfo, fn.lit.Type)
-					if len(ps) != len(call.Args) {
+					lsig, _ := finfo.TypeOf(fn.lit).(*types.Signature)
+					variadic := lsig != nil && lsig.Variadic() && !call.Ellipsis.IsValid() && len(ps) > 0
+					if (!variadic && len(ps) != len(call.Args)) || (variadic && len(call.Args) < len(ps)-1) {
 						return one(oTop{"closure arity"})
 					}
 					for i, pv := range ps {
-						v := fr.rvalue(fr.eval(call.Args[i]))
+						var v oval
+						if variadic && i == len(ps)-1 {
+							// the trailing arguments of a variadic closure, packed
+							var tail []oval
+							for _, a := range call.Args[i:] {
+								tail = append(tail, fr.rvalue(fr.eval(a)))
+							}
+							v = oSlice{typ: lsig.Params().At(i).Type(), arr: &tail, lo: 0, hi: len(tail), capEnd: len(tail)}
+							if len(tail) == 0 {
+								v = oSlice{typ: lsig.Params().At(i).Type()}
+							}
+						} else {
+							v = fr.rvalue(fr.eval(call.Args[i]))
+						}
 						if pv != nil {
 							// an argument handed to an interface-typed parameter is boxed
 							if _, isIface := pv.Type().Underlying().(*types.Interface); isIface {
